@@ -1,0 +1,114 @@
+/**
+ * Verification trace hooks.  Compiled to nothing unless INTERROGATE_VERIF_TRACE
+ * is defined; when it is defined the hooks stay inert unless the environment
+ * variable INTERROGATE_VERIF_TRACE names a file, to which one JSON object per
+ * line is appended for every traced action.
+ */
+
+#ifndef VERIF_TRACE_H
+#define VERIF_TRACE_H
+
+#ifdef INTERROGATE_VERIF_TRACE
+
+#include <cstdio>
+#include <cstdlib>
+#include <csignal>
+#include <string>
+#include <sstream>
+#include <exception>
+#include <unistd.h>
+
+namespace verif_trace {
+
+inline FILE *&file_ref() {
+  static FILE *f = nullptr;
+  return f;
+}
+
+inline void died(int sig) {
+  FILE *f = file_ref();
+  if (f != nullptr) {
+    fprintf(f, "{\"e\":\"Died\",\"sig\":%d}\n", sig);
+    fflush(f);
+  }
+  signal(sig, SIG_DFL);
+  raise(sig);
+}
+
+inline void terminated() {
+  FILE *f = file_ref();
+  if (f != nullptr) {
+    fprintf(f, "{\"e\":\"Died\",\"sig\":-1}\n");
+    fflush(f);
+  }
+  signal(SIGABRT, SIG_DFL);
+  abort();
+}
+
+inline bool enabled() {
+  static int state = -1;
+  if (state < 0) {
+    const char *path = getenv("INTERROGATE_VERIF_TRACE");
+    if (path != nullptr && path[0] != '\0') {
+      file_ref() = fopen(path, "a");
+    }
+    state = (file_ref() != nullptr) ? 1 : 0;
+    if (state) {
+      signal(SIGSEGV, died);
+      signal(SIGFPE, died);
+      signal(SIGABRT, died);
+      signal(SIGBUS, died);
+      signal(SIGILL, died);
+      std::set_terminate(terminated);
+    }
+  }
+  return state == 1;
+}
+
+inline void emit(const std::string &line) {
+  FILE *f = file_ref();
+  fputs(line.c_str(), f);
+  fputc('\n', f);
+  fflush(f);
+}
+
+// JSON string literal for s (quotes included).
+inline std::string q(const std::string &s) {
+  std::string r = "\"";
+  for (size_t i = 0; i < s.size(); ++i) {
+    unsigned char c = (unsigned char)s[i];
+    if (c == '"' || c == '\\') {
+      r += '\\';
+      r += (char)c;
+    } else if (c < 0x20 || c >= 0x7f) {
+      char buf[8];
+      snprintf(buf, sizeof(buf), "\\u%04x", c);
+      r += buf;
+    } else {
+      r += (char)c;
+    }
+  }
+  r += '"';
+  return r;
+}
+
+} // namespace verif_trace
+
+#define VERIF_EVENT(expr) \
+  do { \
+    if (verif_trace::enabled()) { \
+      std::ostringstream _verif_strm; \
+      _verif_strm << expr; \
+      verif_trace::emit(_verif_strm.str()); \
+    } \
+  } while (0)
+#define VERIF_Q(s) verif_trace::q(s)
+
+#else  // INTERROGATE_VERIF_TRACE
+
+#define VERIF_EVENT(expr) ((void)0)
+#define VERIF_Q(s) ""
+
+#endif  // INTERROGATE_VERIF_TRACE
+
+#endif  // VERIF_TRACE_H
